@@ -1,19 +1,19 @@
 #!/bin/bash
 # usage: tools_benign.sh <patch.diff (absolute)>  -- a behaviour-preserving change must not make any check alarm
+# (scratch worktree via VERIF_REPO, binaries / evidence / replays of the run in a scratch dir via VERIF_SCRATCH)
 set -u
-M=/tmp/repo_mut
-git -C /repo worktree remove --force $M 2>/dev/null; git -C /repo worktree prune
-git -C /repo worktree add -q $M HEAD || exit 9
-git -C $M apply "$1" || { echo "patch does not apply"; git -C /repo worktree remove --force $M; exit 9; }
-(cd $M && GOFLAGS=-mod=mod GOPROXY=off GOSUMDB=off GOTOOLCHAIN=local go build ./... && go build -tags verif ./...) || { echo "DOES NOT COMPILE"; git -C /repo worktree remove --force $M; exit 9; }
-rm -rf /tmp/evidence.bak && cp -r /verif/evidence /tmp/evidence.bak
+M=$(mktemp -d /tmp/repo_mut.XXXXXX); rmdir $M
+S=$(mktemp -d /tmp/vscr.XXXXXX)
+git -C /repo worktree prune
+git -C /repo worktree add -q --detach $M HEAD || exit 9
+git -C $M apply "$1" || { echo "patch does not apply"; git -C /repo worktree remove --force $M; rm -rf $S; exit 9; }
+(cd $M && GOFLAGS=-mod=mod GOPROXY=off GOSUMDB=off GOTOOLCHAIN=local go build ./... && go build -tags verif ./...) || { echo "DOES NOT COMPILE"; git -C /repo worktree remove --force $M; rm -rf $S; exit 9; }
 bad=0
 for P in C17 C20 C15 C16; do
-  (cd /verif && VERIF_REPO=$M ./check $P quick > /tmp/benign_$P.txt 2>&1); rc=$?
-  echo "$P rc=$rc $(grep -E 'SUMMARY' /tmp/benign_$P.txt | cut -c1-140)"
-  if [ $rc -ne 0 ]; then bad=1; grep -E "VIOLATION|signature|INFRA" /tmp/benign_$P.txt | cut -c1-240; fi
+  (cd /verif && VERIF_REPO=$M VERIF_SCRATCH=$S ./check $P quick > $S/benign_$P.txt 2>&1); rc=$?
+  echo "$P rc=$rc $(grep -E 'SUMMARY' $S/benign_$P.txt | cut -c1-140)"
+  if [ $rc -ne 0 ]; then bad=1; grep -E "VIOLATION|signature|INFRA" $S/benign_$P.txt | cut -c1-240; fi
 done
 git -C /repo worktree remove --force $M
-rm -rf /verif/evidence && mv /tmp/evidence.bak /verif/evidence
-rm -f /verif/replays/*.json
+rm -rf $S
 echo "benign verdict: $([ $bad -eq 0 ] && echo NO-ALARM || echo ALARM)"
